@@ -371,6 +371,8 @@ def check(ctx):
     A = _args_attr
 
     def _kitti_test(a: T):
+        if a.op == "not":
+            a = a.args[0]
         return a.op == "cmp" and a.args[0] in ("Eq", "NotEq") and \
             tm.is_const(a.args[2], "kitti")
 
@@ -378,8 +380,13 @@ def check(ctx):
         """the value for the timestamped formats (tum / euroc / bag), which
         are the ones that go through the documented association step; the
         index-based kitti branch is judged separately"""
-        return tm.select(t, lambda a: (a.args[0] == "NotEq")
-                         if _kitti_test(a) else None)
+        def sel(a):
+            if not _kitti_test(a):
+                return None
+            if a.op == "not":
+                return not (a.args[0].args[0] == "NotEq")
+            return a.args[0] == "NotEq"
+        return tm.select(t, sel)
 
     def wired(rule_key, e, pname, want: T, what):
         b = e.data.get("bound") or {}
